@@ -1,5 +1,6 @@
 """C17 — CLI: result depends on file contents only; failures keep the old output."""
 from engine.rulekit import facts as factsmod
+from engine.rulekit import inline as I
 from engine.rulekit import mir as M
 from engine.rulekit import scans
 
@@ -59,8 +60,10 @@ def run(ck, F):
     if mb is None or not mb.get("mir"):
         ck.undecided("R1", "main", "-", "zeep::main not found")
         return
-    B = M.Body(mb)
-    ck.count("main blocks", len(B.reach))
+    # main with the binary's own helper functions inlined: where a step sits (main or a helper it calls) does not matter
+    B = I.inlined_body(F.bin, "main")
+    ck.count("main blocks (helpers inlined)", len(B.reach))
+    ck.count("helper functions inlined into main", len(B.fact.get("inlined", [])))
     # generation steps
     steps = {}
     for name, path in GEN_STEPS.items():
@@ -102,7 +105,17 @@ def run(ck, F):
         else:
             ck.ok("R1", "sink-in-memory", sp(B, bb), f"write_xml writes into {sink_ty or g}", fn="main")
     # R1 ordering
-    effects = [(fn, site, decl, bb) for (fn, site, decl, bb) in scans.scan_fs_effects(F.bin) if fn == "main"]
+    effects = []
+    for bb, t in B.calls():
+        decl = M.Body.callee_decl(t) or ""
+        if decl in scans.FS_WRITE:
+            effects.append(("main", sp(B, bb), decl, bb))
+    inlined_fns = {"main"} | {p for p, _ in B.fact.get("inlined", [])}
+    for (fn, site, decl, bb) in scans.scan_fs_effects(F.bin):
+        if fn not in inlined_fns:
+            ck.violation("R1", f"{decl}:outside-main:{fn}", site,
+                         f"{decl} is called in `{fn}`, which is not part of main's straight-line flow (closure or recursive function): its "
+                         f"order relative to the generation steps cannot be established", fn=fn)
     ck.floor("R1", "output-touching calls in main", len(effects), 1)
     for (fn, site, decl, ebb) in effects:
         for name, (sbb, st) in steps.items():
@@ -124,32 +137,7 @@ def run(ck, F):
     writes = [e for e in effects if e[2] in ("std::fs::write", "std::fs::File::create")]
     for (fn, site, decl, ebb) in writes:
         t = B.term(ebb)
-        path_os = M.trace(B, t["args"][0], IDENT)
-        kinds = []
-        for o in path_os:
-            if o.kind == "call" and (M.Body.callee_decl(o.term) or "").endswith("Option::<T>::map_or_else"):
-                mt = o.term
-                # arg0: Option from get_one("to_file"); arg1: default closure; arg2: mapping closure
-                opt = M.trace(B, mt["args"][0], IDENT)
-                opt_ok = all(x.kind == "call" and (M.Body.callee_decl(x.term) or "").endswith("ArgMatches::get_one") and
-                             _const_arg(B, x.term, "to_file") for x in opt) and bool(opt)
-                dflt = _closure_calls(F, B, mt["args"][1])
-                mapc = _closure_calls(F, B, mt["args"][2])
-                dflt_ok = dflt is not None and any(c.endswith("Path::with_extension") for c, _ in dflt) and any(
-                    s == "rs" for _, ss in dflt for s in ss)
-                map_ok = mapc is not None and not any(c.endswith(("with_extension", "with_file_name", "join")) for c, _ in mapc)
-                kinds.append(opt_ok and dflt_ok and map_ok)
-                if not opt_ok:
-                    ck.violation("R3", "output-arg", site, "the output path option is not the `to_file` (--output) argument", fn="main")
-                if not dflt_ok:
-                    ck.violation("R3", "default-extension", site, "the default output path is not <input>.with_extension(\"rs\")", fn="main")
-                if not map_ok:
-                    ck.violation("R3", "explicit-path-modified", site, "the --output path is modified before use", fn="main")
-            else:
-                kinds.append(False)
-                ck.violation("R3", "output-path-source", site, f"output path originates from {o!r}, not from map_or_else(--output | input.rs)", fn="main")
-        if kinds and all(kinds):
-            ck.ok("R3", "output-path", site, "output path = --output, else input.with_extension(\"rs\")", fn="main")
+        rule_output_path(ck, F, B, t, site)
         if decl == "std::fs::write" and "write_xml" in steps:
             data = M.trace(B, t["args"][1], IDENT)
             wbb, wt = steps["write_xml"]
@@ -174,7 +162,8 @@ def run(ck, F):
             ibb, it = steps["read inputs"]
             if files and all(o.kind == "call" and o.bb == ibb for o in files):
                 inp = M.trace(B, it["args"][0], IDENT)
-                inp_ok = bool(inp) and all(o.kind == "call" and (M.Body.callee_decl(o.term) or "").endswith("Path::new") for o in inp)
+                inp = M.trace(B, it["args"][0], PATH_IDENT)
+                inp_ok = bool(inp) and all(_is_get_one(B, o, "from_file") for o in inp)
                 if inp_ok:
                     ck.ok("R4", "document-chain", sp(B, wbb), "write_xml(read_xml(read_input_files(Path::new(--input))))", fn="main")
                 else:
@@ -219,6 +208,121 @@ def run(ck, F):
                          "the directory to scan is Path::parent(input) without an emptiness guard: a bare file name (`-i a.xsd`) has the "
                          "empty parent and read_dir(\"\") fails", fn=ub["path"])
     ck.ok("R6", "truncating-write", "-", "output written by " + ", ".join(sorted({e[2] for e in writes})) if writes else "no write")
+
+
+PATH_IDENT = IDENT + ("Path::new", "PathBuf::from", "Path::to_path_buf", "Option::<T>::unwrap_or_default", "Option::<T>::unwrap_or_else",
+                      "Option::<&T>::cloned", "Option::<T>::map", "Option::<T>::unwrap", "Option::<T>::expect", "Path::as_os_str",
+                      "String::as_str", "PathBuf::as_path", "borrow::Borrow::borrow")
+MODIFIERS = ("with_extension", "with_file_name", "Path::join", "PathBuf::push", "set_extension", "set_file_name", "with_added_extension")
+
+
+def _is_get_one(B, o, arg):
+    return o.kind == "call" and (M.Body.callee_decl(o.term) or "").endswith("ArgMatches::get_one") and _const_arg(B, o.term, arg)
+
+
+def _none_arm_blocks(B, arg):
+    """Entry blocks of the arms taken when the option returned by get_one(arg) is None (switches on its discriminant)."""
+    out = []
+    for i in sorted(B.reach):
+        t = B.term(i)
+        if t.get("k") != "switch":
+            continue
+        for o in M.trace(B, t["discr"], IDENT):
+            if o.kind == "discr" and any(_is_get_one(B, x, arg) for x in M.trace_place(B, o.place, PATH_IDENT)):
+                zero = [bb for v, bb in t["targets"] if v == 0]
+                if not zero and any(v == 1 for v, _ in t["targets"]):
+                    zero = [t["otherwise"]]
+                # the arm must be entered from this switch only (a guard on the Some arm that falls through to the same
+                # block makes it reachable with the option present)
+                out += [bb for bb in zero if [p for p in B.pred[bb] if p in B.reach] == [i]]
+    return out
+
+
+def _default_path(F, B, o):
+    """o is a call origin `Path::with_extension(input, "rs")` with input traced to the --input argument"""
+    if not (o.kind == "call" and (M.Body.callee_decl(o.term) or "").endswith("Path::with_extension")):
+        return False
+    if not _const_arg(B, o.term, "rs"):
+        return False
+    src = M.trace(B, o.term["args"][0], PATH_IDENT)
+    return bool(src) and all(_is_get_one(B, x, "from_file") for x in src)
+
+
+def _closure_default(F, B, operand):
+    """the closure passed as operand computes <input>.with_extension("rs") and nothing else path-like"""
+    cs = _closure_calls(F, B, operand)
+    return cs is not None and any(c.endswith("Path::with_extension") and "rs" in ss for c, ss in cs) and \
+        not any(c.endswith(MODIFIERS) and not c.endswith("Path::with_extension") for c, _ in cs)
+
+
+def _closure_keeps(F, B, operand):
+    cs = _closure_calls(F, B, operand)
+    if cs is None:
+        # a function item used as the mapping (PathBuf::from, ToOwned::to_owned ..)
+        for o in M.trace(B, operand, ()):
+            if o.kind == "const" and not (o.const.get("fn_path") or "").endswith(MODIFIERS):
+                return True
+        return False
+    return not any(c.endswith(MODIFIERS) for c, _ in cs)
+
+
+def rule_output_path(ck, F, B, t, site):
+    """R3: every origin of the path handed to the writing call is either the --output argument (unmodified) or
+    <--input>.with_extension("rs"), the latter only on the flow where --output is absent."""
+    origins = M.trace(B, t["args"][0], PATH_IDENT)
+    none_arms = _none_arm_blocks(B, "to_file")
+    seen_explicit = seen_default = False
+    bad = []
+    for o in origins:
+        decl = (M.Body.callee_decl(o.term) or "") if o.kind == "call" else ""
+        if _is_get_one(B, o, "to_file"):
+            # reached through identity steps only; closures of Option::map on the way must not modify the path
+            for st in o.steps:
+                if st[0] == "call" and st[1].endswith("Option::<T>::map"):
+                    mt = B.term(st[2])
+                    if not _closure_keeps(F, B, mt["args"][1]):
+                        bad.append(("explicit-path-modified", "the --output path is modified before use"))
+            seen_explicit = True
+        elif _default_path(F, B, o):
+            if any(B.dominates(a, o.bb) for a in none_arms):
+                seen_default = True
+            elif any((st[0] == "call" and st[1].endswith(("unwrap_or", "unwrap_or_else"))) for st in o.steps):
+                seen_default = True
+            else:
+                bad.append(("default-not-conditional", "<input>.with_extension(\"rs\") can be used although --output was given"))
+        elif decl.endswith(("Option::<T>::map_or_else", "Option::<T>::map_or")):
+            mt = o.term
+            lazy = decl.endswith("map_or_else")
+            opt = M.trace(B, mt["args"][0], PATH_IDENT)
+            if not (opt and all(_is_get_one(B, x, "to_file") for x in opt)):
+                bad.append(("output-arg", "the output path option is not the `to_file` (--output) argument"))
+            dflt_ok = _closure_default(F, B, mt["args"][1]) if lazy else all(_default_path(F, B, x) for x in M.trace(B, mt["args"][1], PATH_IDENT))
+            if not dflt_ok:
+                bad.append(("default-extension", "the default output path is not <input>.with_extension(\"rs\")"))
+            if not _closure_keeps(F, B, mt["args"][2]):
+                bad.append(("explicit-path-modified", "the --output path is modified before use"))
+            seen_explicit = seen_default = True
+        elif decl.endswith(("Option::<T>::unwrap_or_else", "Option::<T>::unwrap_or")):
+            mt = o.term
+            opt = M.trace(B, mt["args"][0], PATH_IDENT)
+            if not (opt and all(_is_get_one(B, x, "to_file") for x in opt)):
+                bad.append(("output-arg", "the output path option is not the `to_file` (--output) argument"))
+            dflt_ok = _closure_default(F, B, mt["args"][1]) if decl.endswith("unwrap_or_else") else \
+                all(_default_path(F, B, x) for x in M.trace(B, mt["args"][1], PATH_IDENT))
+            if not dflt_ok:
+                bad.append(("default-extension", "the default output path is not <input>.with_extension(\"rs\")"))
+            seen_explicit = seen_default = True
+        else:
+            bad.append(("output-path-source", f"output path originates from {o!r}, not from --output | <input>.with_extension(\"rs\")"))
+    if not seen_explicit and not bad:
+        bad.append(("output-arg", "the --output argument never reaches the output path"))
+    if not seen_default and not bad:
+        bad.append(("default-extension", "without --output the path is not <input>.with_extension(\"rs\")"))
+    if bad:
+        for key, msg in sorted(set(bad)):
+            ck.violation("R3", key, site, msg, fn="main")
+    else:
+        ck.ok("R3", "output-path", site, "output path = --output, else input.with_extension(\"rs\")", fn="main")
 
 
 def _const_arg(B, t, text):
